@@ -54,9 +54,22 @@ CtxFew == {Empty,
            Dict(One("a", Dict(One("b", L1) @@ One("c", L1)))),
            Dict(One("a", Dict(One("b", Dict(One("c", L1))) @@ One("c", L1))) @@ One("b", L1))}
 CtxTiny == {Empty, Dict(One("a", L1)), Dict(One("a", Empty)), Dict(One("a", Dict(One("b", L1)))),
-            Dict(One("a", Dict(One("c", L1))))}
-CtxSeq == SetToSeq(CASE CtxU = "tiny" -> CtxTiny [] CtxU = "few" -> CtxFew
-                     [] CtxU = "mid" -> CtxSet(FALSE) [] CtxU = "full" -> CtxSet(TRUE))
+            Dict(One("a", Dict(One("c", L1)))), Dict(One("a", LNone)), Dict(One("a", Dict(One("b", LNone))))}
+\* contexts holding, at the listed paths, what could be confused with an absent key: None, 0, "", [], False, {}
+\* (0 and False never at the same path: whether they "agree" is not settled by the statement)
+L0 == LInt(0, "0")
+LE == LStr("")
+CtxFalsy(full) ==
+  LET abc == {Absent, LNone, Empty} \cup (IF full THEN {L1, L0} ELSE {})
+      ab == {Absent, LNone, LFalse, L1} \cup (IF full THEN {LList, LE} ELSE {}) \cup {MkDict(One("c", x)) : x \in abc}
+      ac == {Absent, LNone} \cup (IF full THEN {Empty, L1} ELSE {})
+      a == {Absent, LNone, L0, L1, L2} \cup (IF full THEN {LE, LList} ELSE {})
+           \cup {MkDict(One("b", x) @@ One("c", y)) : x \in ab, y \in ac}
+      b == {Absent, LNone, Empty} \cup (IF full THEN {L0} ELSE {})
+  IN {MkDict(One("a", x) @@ One("b", y)) : x \in a, y \in b}
+CtxSeq == SetToSeq(CASE CtxU = "tiny" -> CtxTiny [] CtxU = "few" -> CtxFew \cup CtxTiny
+                     [] CtxU = "mid" -> CtxSet(FALSE) [] CtxU = "full" -> CtxSet(TRUE)
+                     [] CtxU = "falsyq" -> CtxFalsy(FALSE) [] CtxU = "falsy" -> CtxFalsy(TRUE))
 NC == Len(CtxSeq)
 
 (***************************************************************************)
